@@ -451,6 +451,23 @@ func body(s *simrt.Sim) {
 		})
 	}
 
+	// 0-2 observers that list the running workers at drawn moments (a read-only call: it must not disturb anything, and
+	// its result is only logged: a worker counts as running from its registration on)
+	nobs := s.Choose(3)
+	for o := 0; o < nobs; o++ {
+		calls := 1 + s.Choose(3)
+		gap := s.Choose(4)
+		s.Go(fmt.Sprintf("observer%d", o), func() {
+			for c := 0; c < calls; c++ {
+				for k := 0; k < gap; k++ {
+					simrt.Yield()
+				}
+				names := w.d.GetRunningBackgroundWorkers()
+				s.Logf("GetRunningBackgroundWorkers -> %v", names)
+			}
+		})
+	}
+
 	left := s.Quiesce()
 	w.checkOrder()
 	// at quiescence every started worker has returned. A worker that was registered during shutdown and is never
